@@ -404,7 +404,14 @@ impl<F: Write + Seek> MiniAllocator<F> {
             .directory
             .open_chain(self.minifat_start_sector, SectorInit::Fat)?;
         let offset = (index as u64) * size_of::<u32>() as u64;
-        debug_assert!(chain.len() >= offset + size_of::<u32>() as u64);
+        // On a damaged file the MiniFAT chain can have been cut short (for
+        // instance through a stream entry that shares its sectors).
+        if chain.len() < offset + size_of::<u32>() as u64 {
+            invalid_data!(
+                "MiniFAT chain is too short to hold entry {}",
+                index
+            );
+        }
         chain.seek(SeekFrom::Start(offset))?;
         chain.write_le_u32(value)?;
         if (index as usize) == self.minifat.len() {
